@@ -127,11 +127,13 @@ def thousandsCommas (s : Text) : Text :=
 def sliceTo (s : Text) (k : Int) : Text :=
   if k ≥ 0 then s.take k.toNat else s.take (s.length - (-k).toNat)
 
+/-- scan left to right remembering the index of the last blank seen -/
+def rfindSpaceAux : Text → Nat → Int → Int
+  | [], _, last => last
+  | c :: t, i, last => rfindSpaceAux t (i + 1) (if c = ' ' then (i : Int) else last)
+
 /-- Python `s.rfind(' ')` -/
-def rfindSpace (s : Text) : Int :=
-  match (s.reverse.findIdx? (· = ' ')) with
-  | some i => (s.length : Int) - 1 - i
-  | none => -1
+def rfindSpace (s : Text) : Int := rfindSpaceAux s 0 (-1)
 
 def digitsToNat (ds : Text) : Nat := ds.foldl (fun n c => 10 * n + (c.toNat - 48)) 0
 
@@ -213,7 +215,13 @@ exactly one `%s` (or `%d`, ints only).  `used` = the argument was consumed; a
 format that consumes nothing raises TypeError ("not all arguments converted").
 `none` = outside the model. -/
 def pyFormatAux : Text → Val → Bool → Option (R Text)
-  | [], _, used => if used then some (.ok []) else some (.error .typeError)
+  | [], v, used =>
+      -- nothing consumed the argument: TypeError, except for a TaintedString, whose
+      -- __getitem__ makes CPython treat it like a mapping (no "not all arguments converted")
+      if used then some (.ok []) else
+      match v with
+      | .str _ true => some (.ok [])
+      | _ => some (.error .typeError)
   | '%' :: '%' :: t, v, used => (pyFormatAux t v used).map (fun r => r.map ('%' :: ·))
   | '%' :: 's' :: t, v, used =>
       if used then some (.error .typeError)   -- not enough arguments
@@ -279,6 +287,7 @@ def cfmtStage (cfmt : Text) (v : Val) : Option (R (Text × Bool)) :=
   else if cfmt = ['d'] then
     match v with
     | .int i => some (.ok (intRepr i, false))
+    | .str _ true => none     -- TaintedString.__int__: int(text), outside the model
     | _ => some (.error .typeError)
   else none
 
@@ -314,13 +323,17 @@ def afterFmt (x : Ext) (sp : Spec) (v1 : Val) : Option (R Text) :=
   | some (.error e) => some (.error e)
   | some (.ok (s, t)) => some (afterCfmt x sp s t)
 
+/-- the `fmt=` stage when the attribute is present -/
+def fmtOpt (x : Ext) (sp : Spec) (v : Val) : Option (R Val) :=
+  match sp.fmt with
+  | some f => fmtStage x f v
+  | none => some (.ok v)
+
 /-- `Var.render` from the point where the value has been looked up -/
 def renderFull (x : Ext) (sp : Spec) (v : Val) : Option (R Text) :=
   if sp.null.isSome && isNull v then some (.ok (sp.null.getD []))
   else
-    match (match sp.fmt with
-           | some f => fmtStage x f v
-           | none => some (.ok v)) with
+    match fmtOpt x sp v with
     | none => none
     | some (.error e) => some (.error e)
     | some (.ok v1) => afterFmt x sp v1
